@@ -72,6 +72,11 @@ requires the type information from the compiled sources.`, pkg.PkgPath, pkg.Erro
 						return rawConverters, fmt.Errorf("%s: %s", location, err)
 					}
 					rawConverters = append(rawConverters, converters...)
+				} else if funcDecl, ok := decl.(*ast.FuncDecl); ok {
+					if err := checkNoMarker(funcDecl.Doc, token.FUNC); err != nil {
+						location := pkg.Fset.Position(funcDecl.Pos()).String()
+						return rawConverters, fmt.Errorf("%s: %s", location, err)
+					}
 				}
 			}
 		}
@@ -141,16 +146,41 @@ func parseGenDecl(fset *token.FileSet, pkg *types.Package, decl *ast.GenDecl) ([
 	var converters []config.RawConverter
 
 	for _, spec := range decl.Specs {
-		if typeSpec, ok := spec.(*ast.TypeSpec); ok && strings.Contains(parse.CommentToString(typeSpec.Doc), converterMarker) {
-			c, err := parseInterface(fset, pkg, typeSpec, parse.CommentToString(typeSpec.Doc))
-			if err != nil {
+		switch spec := spec.(type) {
+		case *ast.TypeSpec:
+			specDocs := parse.CommentToString(spec.Doc)
+			if strings.Contains(specDocs, variablesMarker) {
+				return nil, fmt.Errorf("%s must be defined on %q-block but was %q", variablesMarker, token.VAR, decl.Tok.String())
+			}
+			if strings.Contains(specDocs, converterMarker) {
+				c, err := parseInterface(fset, pkg, spec, specDocs)
+				if err != nil {
+					return nil, err
+				}
+				converters = append(converters, c)
+			}
+		case *ast.ValueSpec:
+			// the markers belong to the declaration: a type, or the var block as a whole.
+			if err := checkNoMarker(spec.Doc, decl.Tok); err != nil {
 				return nil, err
 			}
-			converters = append(converters, c)
 		}
 	}
 
 	return converters, nil
+}
+
+// checkNoMarker reports a marker in the doc comment of a declaration that
+// can neither be a converter interface nor a variables block.
+func checkNoMarker(doc *ast.CommentGroup, kind token.Token) error {
+	docs := parse.CommentToString(doc)
+	if strings.Contains(docs, converterMarker) {
+		return fmt.Errorf("%s must be defined on %q-block but was %q", converterMarker, token.TYPE, kind.String())
+	}
+	if strings.Contains(docs, variablesMarker) {
+		return fmt.Errorf("%s must be defined on a %q-block but was found on a single %q declaration", variablesMarker, token.VAR, kind.String())
+	}
+	return nil
 }
 
 func parseInterface(fset *token.FileSet, pkg *types.Package, typeSpec *ast.TypeSpec, declDocs string) (config.RawConverter, error) {
